@@ -15,6 +15,7 @@ import (
 	"log"
 	"net"
 	"os"
+	"strconv"
 	"strings"
 	"sync"
 	"sync/atomic"
@@ -688,17 +689,23 @@ func (pm *Portmapper) handleRpcbSet(r io.Reader) []byte {
 		prot = IPPROTO_UDP
 	}
 
-	// Parse port from uaddr
-	if uaddr != "" {
-		var a, b, c, d, hi, lo int
-		if _, err := fmt.Sscanf(uaddr, "%d.%d.%d.%d.%d.%d", &a, &b, &c, &d, &hi, &lo); err == nil {
+	// Parse port from uaddr: the last two dot-separated components are the
+	// port's high and low byte, for IPv4 ("a.b.c.d.hi.lo") and IPv6
+	// ("x:y::z.hi.lo") universal addresses alike.
+	parts := strings.Split(uaddr, ".")
+	if len(parts) >= 3 {
+		hi, errHi := strconv.Atoi(parts[len(parts)-2])
+		lo, errLo := strconv.Atoi(parts[len(parts)-1])
+		if errHi == nil && errLo == nil && hi >= 0 && hi <= 255 && lo >= 0 && lo <= 255 {
 			port = uint32(hi*256 + lo)
 		}
 	}
 
-	if port > 0 {
-		pm.RegisterService(prog, vers, prot, port)
+	if port == 0 {
+		// nothing was registered: say so
+		return pm.encodeBool(false)
 	}
+	pm.RegisterService(prog, vers, prot, port)
 
 	return pm.encodeBool(true)
 }
